@@ -160,7 +160,68 @@ def check_case(acc: Acc, case):
     return fails
 
 
+def check_after_prior(acc: Acc, case):
+    """A first request on the same protocol object is itself answered in fragments (both in time); then the request under
+    test gets a split answer with the exact remainder in time: it must be reassembled, with one transmission."""
+    global CONTENT
+    CONTENT = "pattern"
+    acc.case()
+    transport, T, R, count = case["transport"], case["T"], case["R"], case["count"]
+    cmd, F, F2 = frames(transport, count)
+    s1, a1, a2 = case["prior"]            # split point and the two delivery ticks of the prior request's answer
+    s2, b1, b2 = case["split"]
+    acc.nontrivial("after-prior", transport, case["keep"], T, R, count, tuple(case["prior"]), tuple(case["split"]), case.get("gap"))
+    steps = [{"op": "request", "script": [["multi", [[a1, F[:s1]], [a2, F[s1:]]]]], "command": cmd}]
+    if case.get("gap"):
+        steps.append({"op": "sleep", "ticks": case["gap"]})
+    steps.append({"op": "request", "script": [["multi", [[b1, F[:s2]], [b2, F[s2:]]]]], "command": cmd})
+    full = {"transport": transport, "keep": case["keep"], "T": T, "R": R, "latency": 0, "steps": steps}
+    results, world, errors, protocol = netcase.run_sequence(full)
+    fails = []
+    reqs = [r for r in results if r.kind != "closed"]
+    if len(reqs) < 2 or reqs[-1].hang is not None:
+        return [("C07|%s|after-prior|hang" % transport, "history does not complete", case)]
+    first, second = reqs[0], reqs[-1]
+    if first.kind != "ok":
+        return []  # the prior request is only the history; its own reassembly is the subject of the single-request cases
+    if second.kind != "ok":
+        fails.append(("C07|%s|after-prior|exact-remainder-not-reassembled" % transport,
+                      "second request on the same object (split at %d, pieces at +%d/+%d ticks, prior request split at %d +%d/+%d): outcome %s after %d transmissions" % (
+                          s2, b1, b2, s1, a1, a2, second.kind, len(second.tx)), case))
+    else:
+        if second.result.raw_data != F:
+            fails.append(("C07|%s|after-prior|reassembled-bytes-differ" % transport, "result differs from the unsplit frame", case))
+        if len(second.tx) != 1:
+            fails.append(("C07|%s|after-prior|retransmitted-despite-remainder" % transport,
+                          "%d transmissions at %s" % (len(second.tx), second.times()), case))
+    return fails
+
+
+def prior_job(job):
+    transport, keep, count = job
+    acc = Acc()
+    cmd, F, F2 = frames(transport, count)
+    hdr = MIN_HEADER[transport]
+    splits = sorted({hdr, hdr + 2, len(F) // 2, len(F) - 1} & set(range(hdr, len(F))))
+    for s1 in splits:
+        for (a1, a2) in ((2, 6), (0, 14), (5, 5)):
+            for s2 in splits:
+                for (b1, b2) in ((1, 3), (2, 15), (9, 14)):
+                    for gap in (0, 3, 9):
+                        case = {"after_prior": True, "transport": transport, "keep": keep, "T": 1.0, "R": 1, "count": count,
+                                "prior": [s1, a1, a2], "split": [s2, b1, b2], "gap": gap}
+                        for key, msg, c in check_after_prior(acc, case):
+                            acc.fail(key, msg, c)
+    if len(acc.samples) < 1:
+        acc.sample(case)
+    return acc
+
+
 def _apply(acc, case):
+    if case.get("after_prior"):
+        for key, msg, c in check_after_prior(acc, case):
+            acc.fail(key, msg, c)
+        return
     for key, msg, c in check_case(acc, case):
         acc.fail(key, msg, c)
 
@@ -270,6 +331,8 @@ def run(ctx):
     ctx.shard(positive_job, pos, "every split point x 5 timings, exact remainder (positive oracle)")
     ctx.exhaustive_parts.append("all split points 1..len-1 of the response frame for each enumerated count/length, transport and keep-alive")
     ctx.shard(negative_job, neg, "wrong second pieces and cross-transmission leftovers on a grid")
+    pj = [(t, k, c) for t in ("udp", "aa55", "tcp") for k in (False, True) for c in ((4, 33) if ctx.quick else (1, 4, 33, 125))]
+    ctx.shard(prior_job, pj, "second request on the same protocol object after a request that was itself answered in fragments (splits x timings x gap)")
     n = ctx.pick(4800, 100000)
     ctx.shard(hyp_job, [(ctx.seed * 1000 + i, n // 16) for i in range(16)], "hypothesis: free delivery lists over up to R+1 transmissions")
 
